@@ -245,6 +245,84 @@ def inDocC (d : Doc) : Bool :=
   (match d.rounding with | some x => decide (x.exp ≤ d.c + 2) | none => true) &&
   d.advances.all (advOkB d.c)
 
+/-! ### prices including one tax category (`prices_include`)
+
+`removeIncludedTaxes` divides the prepared total of every row that carries a combo of the included
+category (with a percentage) by 1 + percentage: one more rounding point for that row (`incB`).  The
+amount of the included category (`tax_included`) is subtracted from `total`: its own rounding points
+are the rate groups of that category (`incGroupsOf`) and it carries the rows' errors once per combo of
+the category (`kN`). -/
+
+/-- the extra rounding point of a row: 1 when the included category occurs on it with a percentage -/
+def incB (inc : Option String) (taxes : List Combo) : Nat :=
+  match inc with
+  | none => 0
+  | some k =>
+    match taxes.find? (fun cb => cb.cat == k) with
+    | some cb => if cb.percent.isSome then 1 else 0
+    | none => 0
+
+/-- number of combos of the included category on a row -/
+def kN (inc : Option String) (taxes : List Combo) : Nat :=
+  match inc with
+  | none => 0
+  | some k => (taxes.filter (fun cb => cb.cat == k)).length
+
+/-- the rows' errors carried into a quantity that is `L taxes`-Lipschitz in the row total: lines with
+their own weight, document discounts / charges with 1 + the weight of the sum, each plus `incB` -/
+def rowsWL (L : List Combo → Nat) (inc : Option String) (d : Doc) : Nat :=
+  (d.lines.map (fun l => (lineW l + incB inc l.taxes) * L l.taxes)).sum +
+  (d.discounts.map (fun x => (1 + sumW d.lines + incB inc x.taxes) * L x.taxes)).sum +
+  (d.charges.map (fun x => (1 + sumW d.lines + incB inc x.taxes) * L x.taxes)).sum
+
+/-- rate groups of the included category in a tax summary -/
+def incGroupsOf (inc : Option String) (cats : List CatTotal) : Nat :=
+  match inc with
+  | none => 0
+  | some k =>
+    match cats.find? (fun ct => ct.code == k) with
+    | some ct => ct.rates.length
+    | none => 0
+
+def incGroupsT (inc : Option String) (t : Totals) : Nat :=
+  match t.taxes with
+  | some tx => incGroupsOf inc tx.cats
+  | none => 0
+
+/-- weight of the tax when prices may include a category -/
+def taxWI (d : Doc) (G : Nat) : Nat := G + rowsWL comboW d.includes d
+/-- weight of `tax_included` -/
+def incWI (d : Doc) (Gk : Nat) : Nat := Gk + rowsWL (kN d.includes) d.includes d
+/-- weight of `total` = sum − discounts + charges − tax_included -/
+def totalWI (d : Doc) (Gk : Nat) : Nat := totalW d + incWI d Gk
+def twtWI (d : Doc) (G Gk : Nat) : Nat := totalWI d Gk + taxWI d G
+def advWI (d : Doc) (G Gk : Nat) : Nat := d.advances.length * (1 + twtWI d G Gk)
+def dueWI (d : Doc) (G Gk : Nat) : Nat := twtWI d G Gk + advWI d G Gk
+
+/-- a combo of the included category has a percentage ≥ 0 -/
+def incPosB (inc : Option String) (cb : Combo) : Bool :=
+  match inc with
+  | none => true
+  | some k => !(cb.cat == k) || (match cb.percent with | some p => decide (0 ≤ p.amount.value) | none => true)
+
+/-- the class of `Props.C01.calc_eq_spec_included`, decided: as `inDocC`, but the prices may include
+one tax category, which must not be retained and whose percentages must not be negative -/
+def inDocI (d : Doc) : Bool :=
+  d.rule == .precise && !d.lines.isEmpty && d.lines.all (adjLineB d.c) &&
+  d.discounts.all (docAdjOkB d.c) && d.charges.all (docAdjOkB d.c) &&
+  (match d.includes with | some k => !(retOf d k) | none => true) &&
+  (allCombos d).all (fun cb => comboOkB (retOf d) cb && incPosB d.includes cb) &&
+  (match d.rounding with | some x => decide (x.exp ≤ d.c + 2) | none => true) &&
+  d.advances.all (advOkB d.c)
+
+/-- the largest weight of a calculated document whose prices may include a tax category -/
+def docWeightI (d : Doc) : Nat :=
+  match calculate exactOps d with
+  | .ok out => (match out.totals with
+      | some t => dueWI d (groupsT t) (incGroupsT d.includes t)
+      | none => 0)
+  | .error _ => 0
+
 /-- the largest weight of a calculated document (that of the amount due); 0 when nothing was calculated -/
 def docWeight (d : Doc) : Nat :=
   match calculate exactOps d with
